@@ -90,6 +90,21 @@ func genCase(t *rapid.T, env *ev.Env) run.ProgCase {
 				prog.Op{Kind: prog.OpGC},
 			)
 		}
+		if rapid.IntRange(0, 3).Draw(t, "fragSameClass") == 1 {
+			// a transition to the class the object already has, after the class -> store mapping changed: the data
+			// must move to the store the class is mapped to now (seeded defect S-C14-4: the metadata layer treats
+			// "same class" as nothing to do, the storage layer has already copied the parts)
+			k := rapid.SampledFrom([]string{"GLACIER", "REDUCED_REDUNDANCY", "STANDARD_IA"}).Draw(t, "fragSameClassName")
+			frag = []prog.Op{
+				{Kind: prog.OpPut, B: 0, K: 0, Body: body, Class: &k},
+				{Kind: prog.OpRemap},
+				{Kind: prog.OpTransition, B: 0, K: 0, Class: &k},
+				{Kind: prog.OpGC},
+				{Kind: prog.OpRemap},
+				{Kind: prog.OpTransition, B: 0, K: 0, Class: &k},
+				{Kind: prog.OpGC},
+			}
+		}
 		var kept []prog.Op
 		for i := range frag {
 			if rapid.IntRange(0, 7).Draw(t, "fragKeep") > 0 {
